@@ -35,7 +35,7 @@ def load_map():
 
 
 # units without a harness of their own are exercised by the harness of the unit that calls them
-ALIAS = {'VO1': 'V1', 'VO2': 'V2', 'VO3': 'V3', 'VO4': 'V4', 'V7a': 'V7m', 'V8g': 'V8', 'V8d': 'V8', 'V8v': 'V8',
+ALIAS = {'VO1': 'V1', 'VO2': 'V2', 'VO3': 'V3', 'VO4': 'V4', 'V7a': 'V7m', 'V8g': 'V8', 'V8d': 'V8', 'V8v': 'V8', 'V8p': 'V8',
          'B6t': 'B6', 'B7e': 'B7', 'V1c': 'V1', 'V2c': 'V2', 'V3c': 'V3', 'V4c': 'V4', 'V6c': 'V6', 'V6d': 'V6',
          'V6n': 'V6', 'V6new': 'V6', 'P2s': 'P2', 'P2n': 'P2', 'P3n': 'P3', 'P4': 'P1', 'P4e': 'P1', 'P4n': 'P1',
          'T1': 'T3', 'T2': 'T3', 'N2': 'N1', 'N3': 'N1', 'N4': 'N1', 'N5': 'N1', 'L2': 'L1', 'PCa': 'PCi',
